@@ -19,6 +19,7 @@ import RotoV.Lemmas.LayoutWrite
 import RotoV.Lemmas.LayoutListEq
 import RotoV.Lemmas.ValueCtor
 import RotoV.Lemmas.ValueMatch
+import RotoV.Lemmas.ValueMir
 import RotoV.Generated.ValueMatchGen
 
 namespace RotoV.C02
@@ -775,5 +776,59 @@ theorem match_on_the_variable_itself_refuted :
       (ValueMatch.lowMatch [.evalExpr] 0 7 arms s).map (fun p => (p.1, p.2.leaves 2)) = some (1, 105) ∧
       (ValueMatch.specMatch 0 arms s).map (fun p => (p.1, p.2.leaves 2)) = some (1, 5) :=
   ⟨ValueMatch.wArms, ValueMatch.wStore, ValueMatch.wArms_blind, by decide, by decide⟩
+
+/-- **`match_bindings_read_the_switched_value_mir`** — soundness of the checker `matchIsOnCopy` that
+    every MIR item of every generated script goes through (the REAL lowerer's output, hook dump,
+    `c02 mirmatch`): if the checker accepts an item then, on EVERY path of its control-flow graph —
+    every combination of guards saying yes or no, every iteration of an enclosing loop —, between a
+    node `d` that reads the discriminant of a variable `v` and a later node `r` that extracts a
+    pattern binding from `v` (no other discriminant read of `v` in between), NO node writes `v` or a
+    part of it, sets its discriminant, drops or moves it. The quantifier over the paths through the
+    guards is this theorem; the quantifier over programs is sampled on compiler output. This closes
+    the gap T9 left open (`lowArms` = what `match_case` emits): whatever `match_case` emits, the
+    bindings of every arm are components of the value whose discriminant was switched on. -/
+theorem match_bindings_read_the_switched_value_mir (it : ValueMir.Item)
+    (h : ValueMir.matchIsOnCopy it = true) (v d : Nat) (mid : List Nat) (r : Nat)
+    (hp : ValueMir.IsPath (ValueMir.flatten it) (d :: (mid ++ [r])))
+    (hr : v ∈ (ValueMir.node (ValueMir.flatten it) r).binds)
+    (hmid : ∀ m ∈ mid, v ∉ (ValueMir.node (ValueMir.flatten it) m).discr) :
+    ∀ m ∈ mid, v ∉ (ValueMir.node (ValueMir.flatten it) m).affects :=
+  ValueMir.graphOk_bindings_of_switched_value h v d mid r hp hr hmid
+
+/-- not vacuous: the item `wOnCopy` (a guard writes the matched variable `x` between two binding
+    extractions from the copy `$1`) is accepted, nodes 1 … 6 are a path from the discriminant read
+    to the second extraction, and a node on it does affect ANOTHER variable (`x`) -/
+example : ValueMir.matchIsOnCopy ValueMir.wOnCopy = true ∧
+    ValueMir.IsPath (ValueMir.flatten ValueMir.wOnCopy) [1, 2, 3, 4, 5, 6] ∧
+    1 ∈ (ValueMir.node (ValueMir.flatten ValueMir.wOnCopy) 1).discr ∧
+    1 ∈ (ValueMir.node (ValueMir.flatten ValueMir.wOnCopy) 6).binds ∧
+    0 ∈ (ValueMir.node (ValueMir.flatten ValueMir.wOnCopy) 4).affects := by decide
+
+/-- **`match_write_then_binding_rereads_discriminant_mir`** — the same soundness, read from the
+    write: after any node that affects `v`, no binding is extracted from `v` before the
+    discriminant of `v` has been read again. -/
+theorem match_write_then_binding_rereads_discriminant_mir (it : ValueMir.Item)
+    (h : ValueMir.matchIsOnCopy it = true) (v a : Nat) (mid : List Nat) (r : Nat)
+    (hp : ValueMir.IsPath (ValueMir.flatten it) (a :: (mid ++ [r])))
+    (ha : v ∈ (ValueMir.node (ValueMir.flatten it) a).affects)
+    (hr : v ∈ (ValueMir.node (ValueMir.flatten it) r).binds) :
+    ∃ m ∈ mid, v ∈ (ValueMir.node (ValueMir.flatten it) m).discr :=
+  ValueMir.graphOk_sound h v a mid r hp ha hr
+
+example : ∃ m ∈ [1, 2], 1 ∈ (ValueMir.node (ValueMir.flatten ValueMir.wOnCopy) m).discr :=
+  match_write_then_binding_rereads_discriminant_mir ValueMir.wOnCopy (by decide) 1 0 [1, 2] 3
+    (by decide) (by decide) (by decide)
+
+/-- **`mir_checker_rejects_match_on_the_variable`** — the checker is not trivially `true`: the MIR
+    shape seeded change C02-8 produces (discriminant and bindings read from the user's variable,
+    which a guard assigns between two extractions) is rejected, and on it the conclusion of the
+    soundness theorem indeed fails (node 4 writes `x` between the discriminant read and the second
+    extraction). -/
+theorem mir_checker_rejects_match_on_the_variable :
+    ValueMir.matchIsOnCopy ValueMir.wOnVariable = false ∧
+    ValueMir.IsPath (ValueMir.flatten ValueMir.wOnVariable) [0, 1, 2, 3, 4, 5] ∧
+    0 ∈ (ValueMir.node (ValueMir.flatten ValueMir.wOnVariable) 0).discr ∧
+    0 ∈ (ValueMir.node (ValueMir.flatten ValueMir.wOnVariable) 5).binds ∧
+    0 ∈ (ValueMir.node (ValueMir.flatten ValueMir.wOnVariable) 3).affects := by decide
 
 end RotoV.C02
